@@ -70,7 +70,7 @@ def check_file(deck, t4, rng, n_points=200, compositions=True):
     '''Returns (stats, failures); a failure is a dict(kind, why, cls, ...).'''
     failures = []
     stats = {'points': 0, 'joined': 0, 'skipped-geometry': 0, 'void': 0,
-             'nested': 0, 'lattice-own': 0}
+             'nested': 0, 'lattice-own': 0, 'like': 0, 'like-chain': 0}
     comp_of = {}
     for name, vols in t4.geomcomp:
         for vid in vols:
@@ -109,7 +109,7 @@ def check_file(deck, t4, rng, n_points=200, compositions=True):
     ev = t4eval.Evaluator(t4, eps=1e-6)
     by_class = {}     # (mat, class idx) -> {name: spelling}
     by_value = {}     # name -> {(mat, value)}
-    for p in geomcheck.sample_points(rng, n_points):
+    for p in list(deck.get('probes', [])) + geomcheck.sample_points(rng, n_points):
         try:
             chain = ref.locate(np.array(p, float))
             owners = ev.owners(p)
@@ -131,6 +131,10 @@ def check_file(deck, t4, rng, n_points=200, compositions=True):
             stats['nested'] += 1
         if chain[-1][1] is not None:
             stats['lattice-own'] += 1
+        if raw.get('like') is not None:
+            stats['like'] += 1
+            if ref.cells[raw['like']].get('like') is not None:
+                stats['like-chain'] += 1
         name = names[0]
         tok = parse_name(name)
         where = (f'point {[round(float(x), 4) for x in p]} (MCNP chain '
